@@ -217,7 +217,9 @@ def ScopeTopPlaced (cfg : Cfg) (g : GState) : Prop :=
     ∀ b ∈ g.s.live, b.id < m → 0 < b.size → PlacedAt cfg g.s cp b.addr b.size
 
 /-- PARTIAL: `LiveOK` is preserved by allocate / allocate_zeroed / the typed alloc fast paths /
-    deallocate / scope exit, through every wrapper, on every path (fast, next chunk, new chunk, refused) -/
+    deallocate / scope exit, through every wrapper, on every path (fast, next chunk, new chunk, refused).
+    FULL FORM (all 34 constructors, side conditions discharged by the invariant of histories):
+    `C01.stepCore_preserves_liveOK` in Props/Targets.lean; for histories `C01.reachable_liveOK` (Props/Hist.lean). -/
 theorem stepCore_preserves_liveOK_partial {cfg : Cfg} {g g' : GState} {op : Op} {out : Out}
     (hop : Covered op)
     (hl : LiveOK cfg g.s) (hwf : MemWF g.s) (hfr : HeadFresh g.s) (hp : CurPosOK cfg g.s)
@@ -229,7 +231,11 @@ theorem stepCore_preserves_liveOK_partial {cfg : Cfg} {g g' : GState} {op : Op} 
   | deallocate b via => exact stepCore_deallocate hl hma h
   | scopeExit => exact stepCore_scopeExit hl hma hsc h
 
-/-- TARGET (NOT PROVED): C01 for all histories — there is an inductive invariant of the model that
+/-- RESOLUTION (Props/Targets.lean): NOT resolved as stated (case C) — `C01.liveOK_invariant_corrected` proves the
+    statement with `Arena.Hist.Inv` as witness for admissible configurations (`CfgOK`), covered operations and
+    `RespsSane` responses below `2^63`; the statement below also quantifies over configurations outside `CfgOK`,
+    for which no preservation proof exists (no counterexample is known either).  History form: `C01.reachable_liveOK`.
+    TARGET (NOT PROVED): C01 for all histories — there is an inductive invariant of the model that
     implies `LiveOK`, holds initially and is preserved by every step that does not fault and whose
     base-allocator responses are sane.
     Proved so far: `stepCore_preserves_liveOK_partial` (4 of the operations, with the geometric side
